@@ -2,7 +2,7 @@
    ops: N | P<b> | W<b>:<text>:<markers> | I<b>,<t> | C<b> | R<b>
    text / markers: dot separated numbers, "-" = empty.
    output: one block per observation point, blocks joined by "|":
-     <wf><wfstrict>;<handle 0>;<handle 1>...   handle = v/m/e/k/sv/sm
+     <wf><wf>;<handle 0>;<handle 1>...   handle = v/m/e/k/sv/sm  (wf = history so far well-formed)
    v getvalue, m allmarkers, e empty, k copyto chunks (comma separated), sv/sm the reference;
    "!" = no result (model: unbounded recursion) *)
 let nl_of s = if s = "-" || s = "" then [] else List.map n_of_string (String.split_on_char '.' s)
@@ -47,8 +47,8 @@ let handle = function
         match ops with
         | [] -> List.rev (if every then acc else [observe st sp wf wfs])
         | o :: r ->
-            let wf' = wf && wf_op false sp o in
-            let wfs' = wfs && wf_op true sp o in
+            let wf' = wf && wf_op sp o in
+            let wfs' = wf' in
             let st' = (match st with None -> None | Some s -> step s o) in
             let sp' = spec_step sp o in
             go st' sp' wf' wfs' r (if every then observe st' sp' wf' wfs' :: acc else acc) in
